@@ -4,6 +4,7 @@ import NixModel.Lemmas.UnitsRel
 import NixModel.Lemmas.UnitsCompound
 import NixModel.Lemmas.UnitsSound
 import NixModel.Lemmas.UnitsScalingEq
+import NixModel.Lemmas.UnitsTotal
 
 /-!
 # C09 — SI unit recognition and scaling are exact and consistent
@@ -161,6 +162,26 @@ theorem scaling_shape_ratio (p₁ p₂ u w : Str) (h₁ : p₁ ∈ optPrefixes) 
   rw [scalingGen_eq]
   exact (scaling_atoms_generic p₁ p₂ u w h₁ h₂ hu hw).2
 
+/-! ## `scaling` on all inputs -/
+
+/-- whatever `split` returns for any string: the prefix is empty or from the prefix table (each entry of which has
+a factor), the power is empty or a power text without its `^` — so `scaling` can raise neither KeyError nor
+ValueError -/
+theorem split_captures (s : Str) : (split s).1 ∈ optPrefixes ∧ PowerTail (split s).2.2 := split_parts s
+
+/-- for ANY two strings `scaling` either refuses with `InvalidUnit` — exactly when `scalable` is false — or returns
+the ratio of the prefixes `split` found raised to the power `split` found; there is no third outcome. The same
+holds for the interpretation of the regenerated statement shape, which is what the driver runs -/
+theorem scaling_total_exact (a b : Str) :
+    scaling a b =
+      (if scalable a b then .ok (tenPow (expOf (split a).1 - expOf (split b).1) ^ powOf (split a).2.2)
+       else .error .invalidUnit) ∧
+    Scaling.scaling a b = scaling a b :=
+  ⟨scaling_total a b, scalingGen_eq a b⟩
+
+/-- a conversion factor is strictly positive -/
+theorem scaling_positive (a b : Str) (r : Rat) (h : scaling a b = .ok r) : 0 < r := scaling_pos a b r h
+
 /-! ## `scalable` as a relation on arbitrary strings -/
 
 /-- symmetric; transitive; reflexive exactly on the strings recognised as SI -/
@@ -310,6 +331,9 @@ example : Compound.splitCompound "mmol/l^2*Sv^+3/kat^-2".toList =
     some ["mmol".toList, "l^-2".toList, "Sv^+3".toList, "kat^2".toList] := by decide +kernel
 example : joinCompound "mV".toList [('/', "s^2".toList), ('*', "mol".toList)] = "mV/s^2*mol".toList := by decide
 example : Compound.invertPower "s^+12".toList = "s^-12".toList := by decide +kernel
+example : powOf "-12".toList = -12 ∧ powOf [] = 1 ∧ PowerTail "+7".toList := by
+  refine ⟨by decide, by decide, Or.inr (.pow ['+'] '7' [] (by simp) (by decide) (by decide))⟩
+example : scaling "mV\n".toList "kV".toList = .ok ((10 : Rat) ^ (-6 : Int)) := by decide +kernel
 example : joinPadded "mV".toList [("  ".toList, '/', " ".toList, "Hz".toList)] = "mV  / Hz".toList := by decide
 example : microSpellings = ["µ".toList, "μ".toList, "mu".toList] := by decide
 example : isAtomic "mV\n".toList = true ∧ isAtomic "mV\n\n".toList = false ∧ isAtomic "mV ".toList = false := by
